@@ -51,19 +51,33 @@ func (p *Processor) ID() string {
 	return "HMAC processor"
 }
 
-// OnColumn return data itself if hash matched, otherwise column data hash will be returned
+// onColumnCalledCtxKey marks the per-column context once the processor has seen the column
+type onColumnCalledCtxKey struct{}
+
+// OnColumn is subscribed twice: before the decryptors (the first call for a column cuts the hash off
+// a searchable value and remembers it) and after them (the second call, recognized by the mark the
+// first call left in the column's context, verifies the decrypted data against the remembered hash).
+// It returns data itself if hash matched, otherwise the raw column data will be returned.
 func (p *Processor) OnColumn(ctx context.Context, data []byte) (context.Context, []byte, error) {
-	_, err := p.Process(data, &base.DataProcessorContext{Context: ctx})
-	if err != nil {
-		logger := logging.GetLoggerFromContext(ctx)
-		logger.WithError(err).Debugln("Failed on HMAC processing")
-		p.hashData = nil
-		return base.MarkNotDecryptedContext(ctx), p.rawData, nil
+	if ctx.Value(onColumnCalledCtxKey{}) != nil {
+		// second call for this column: only verify, decrypted data is never searched for a hash again
+		// and nothing is kept for the next column
+		_, err := p.Process(data, &base.DataProcessorContext{Context: ctx})
+		rawData := p.rawData
+		p.hashData, p.matchedHash, p.rawData = nil, nil, nil
+		if err != nil {
+			logger := logging.GetLoggerFromContext(ctx)
+			logger.WithError(err).Debugln("Failed on HMAC processing")
+			return base.MarkNotDecryptedContext(ctx), rawData, nil
+		}
+		return ctx, data, nil
 	}
+	ctx = context.WithValue(ctx, onColumnCalledCtxKey{}, true)
+	// first call for this column: forget whatever was left from a previous column
+	p.hashData, p.matchedHash, p.rawData = nil, nil, nil
 
 	p.matchedHash = ExtractHash(data)
 	if p.matchedHash == nil {
-		p.hashData = nil
 		return ctx, data, nil
 	}
 	if !p.envelopeMatcher.Match(data[p.matchedHash.Length():]) {
